@@ -706,6 +706,79 @@ def descriptor_cases(out, ck):
                 out.violation("descriptor-illtyped-body-ran", "ill-typed call ran the body", {})
 
 
+def property_accessor_cases(out, ck):
+    """`jaxtyped` applied to a property OBJECT with every combination of getter / setter / deleter (a gap included:
+    getter + deleter, setter only, …): each accessor stays in its own slot, runs once with the same objects, and the
+    accessors that were absent stay absent"""
+    import itertools
+
+    tc = CHECKERS[ck]
+    x_ok, x_bad = Duck((3,), "float32"), Duck((3, 3), "float32")
+    for has in itertools.product((False, True), repeat=3):
+        if not any(has):
+            continue
+        log = []
+
+        def fget(self) -> A:
+            log.append("get")
+            return RES
+
+        def fset(self, v: A):
+            log.append(("set", id(v)))
+
+        def fdel(self):
+            log.append("del")
+
+        plain = property(fget if has[0] else None, fset if has[1] else None, fdel if has[2] else None, "doc")
+        for dname, deco in (("typechecker=" + ck, jaxtyped(typechecker=tc)), ("typechecker=None", jaxtyped(typechecker=None))):
+            try:
+                dec = deco(property(fget if has[0] else None, fset if has[1] else None, fdel if has[2] else None, "doc"))
+            except BaseException as e:  # noqa: BLE001
+                out.violation(f"property:decorate:{has}", f"decorating a property with accessors (get, set, del) = {has} raised {type(e).__name__}: {e}", {"property_accessors": list(has)})
+                continue
+
+            def observe(prop):
+                C = type("C", (), {"p": prop})
+                o = C()
+                res = []
+                for op in ("get", "set", "del"):
+                    log.clear()
+                    try:
+                        if op == "get":
+                            r = o.p is RES
+                        elif op == "set":
+                            o.p = x_ok
+                            r = True
+                        else:
+                            del o.p
+                            r = True
+                        res.append((op, "ok", r, list(log)))
+                    except BaseException as e:  # noqa: BLE001
+                        res.append((op, type(e).__name__, None, list(log)))
+                return res
+
+            a, b = observe(plain), observe(dec)
+            shape = (isinstance(dec, property), dec.fget is not None, dec.fset is not None, dec.fdel is not None)
+            out.case(("property", ck, dname, has), True, sample={"accessors": list(has), "decorator": dname, "plain": str(a)[:200], "decorated": str(b)[:200]})
+            if shape != (True,) + tuple(has):
+                out.violation(f"property:slots:{has}", f"a property with (get, set, del) = {has} decorated with {dname} has (is property, get, set, del) = {shape}", {"property_accessors": list(has)})
+            elif a != b:
+                out.violation(f"property:behaviour:{has}", f"a property with (get, set, del) = {has} decorated with {dname}: get / set / delete give {b}, the undecorated one {a}", {"property_accessors": list(has)})
+            elif has[1] and dname != "typechecker=None":
+                # an ill-typed value through the setter: rejected, body not run
+                C = type("C", (), {"p": dec})
+                log.clear()
+                try:
+                    C().p = x_bad
+                    got = "accepted"
+                except TypeCheckError:
+                    got = "tce"
+                except BaseException as e:  # noqa: BLE001
+                    got = type(e).__name__
+                if got != "tce" or log:
+                    out.violation(f"property:setter-illtyped:{has}", f"an ill-typed value through the decorated setter gives {got}, body ran {log}", {"property_accessors": list(has)})
+
+
 def run(tier, seed, out, drv, facts):
     import warnings
 
@@ -720,6 +793,7 @@ def run(tier, seed, out, drv, facts):
         factory_and_strict_cases(out, ck)
         string_annotation_cases(out, ck)
         stacked_decorator_cases(out, ck)
+        property_accessor_cases(out, ck)
     for i in range(n):
         sig = gen_sig(rng)
         fname = rng.choice(["fn", "fn", "T0", "ret0", "default0", sig[0]["name"]])
@@ -740,3 +814,4 @@ def replay(rep, out, drv, facts):
             factory_and_strict_cases(out, ck)
             string_annotation_cases(out, ck)
             stacked_decorator_cases(out, ck)
+            property_accessor_cases(out, ck)
